@@ -45,6 +45,7 @@ class SpecFn:
         ctx = Ctx(_DummyContract(self.name, self.ns), self.ns)
         ctx.spec_mode = True
         ev = SpecEval(ctx, self.ns)
+        ev.ret_ty = self.ret
         args = [z3.Const("%s_%s" % (self.name, p), t.sort()) for p, t in self.params.items()]
         st = State({p: V(t, a) for (p, t), a in zip(self.params.items(), args)})
         body = coerce(ev.pure_block(node.body, st), self.ret)
@@ -67,6 +68,7 @@ class SpecFn:
             ctx = Ctx(_DummyContract(self.name, self.ns), self.ns)
             ctx.spec_mode = True
             ev = SpecEval(ctx, self.ns)
+            ev.ret_ty = self.ret
             sub = State({p: coerce(vals[p], self.params[p]) for p in names})
             return coerce(ev.pure_block(self._node.body, sub), self.ret)
         self.define()
@@ -225,6 +227,23 @@ class SpecModule:
         return {(c.file, c.qual): c for c in self.contracts}
 
 
+def _frame(ctx, contract, fst, est, line, oblige=True):
+    """postconditions speak about the parameter objects: a parameter that is not listed in `modifies` must be unchanged
+    at exit (frame obligation) and is read at its entry value; rebinding the parameter *name* is not a mutation"""
+    rebound = fst.env.get("__rebound__", ())
+    for p, ty in contract.params.items():
+        if p in contract.modifies:
+            continue
+        entry = fst.env.get("old:" + p)
+        final = fst.env.get(p)
+        if entry is None:
+            continue
+        if oblige and p not in rebound and isinstance(final, V) and isinstance(entry, V) and ty.mutable \
+                and not final.t.eq(entry.t):
+            ctx.oblige("frame", fst, final.t == entry.t, line, "parameter %s is not in `modifies` but may be changed" % p)
+        est.env[p] = entry
+
+
 # ------------------------------------------------------------------------------------------------------------------
 def gen_function_vcs(contract, registry, feasible=None, extra_post=None):
     """symbolically execute the real function; returns (ctx, info).  extra_post replaces `ensures` (canaries)."""
@@ -252,6 +271,8 @@ def gen_function_vcs(contract, registry, feasible=None, extra_post=None):
         raise Unsupported("contract parameters %s are not parameters of %s" % (extra, contract.key))
     for p in missing:
         raise Unsupported("parameter %s of %s is not declared in the contract" % (p, contract.key))
+    if node.args.kwarg:
+        st.env[node.args.kwarg.arg] = PyConstObj("**" + node.args.kwarg.arg)
     sub = SpecEval(ctx, contract.ns)
     for r in contract.requires:
         st.assume(truthy(sub.ev_str(r, State(dict(st.env), []))))
@@ -273,6 +294,7 @@ def gen_function_vcs(contract, registry, feasible=None, extra_post=None):
             est = State(dict(fst.env), fst.pc)
             est.env["result"] = res
             est.env["_out"] = res
+            _frame(ctx, contract, fst, est, o.line)
             for i, e in enumerate(ensures):
                 ctx.oblige("post", fst, truthy(sub.ev_str(e, est)), o.line, "ensures[%d]: %s" % (i, e))
             # completeness of the exceptional postconditions: normal exit => no raise condition holds
@@ -302,6 +324,7 @@ def gen_function_vcs(contract, registry, feasible=None, extra_post=None):
                 est = State(dict(fst.env), fst.pc)
                 est.env["result"] = fst.out
                 est.env["_out"] = fst.out
+                _frame(ctx, contract, fst, est, o.line, oblige=False)
                 for i, e in enumerate(contract.raises_ensures.get(o.exc, [])):
                     ctx.oblige("raises", fst, truthy(sub.ev_str(e, est)), o.line, "raises_ensures[%s][%d]: %s" % (o.exc, i, e))
         else:
